@@ -6,9 +6,9 @@ differential_evolution with an explicit seed option) together with a WORKLOAD: a
 a gradient probe (so that every configuration, also the gradient-free ones, draws perturbations); an
 evaluator step before the optimizer step; optimizer step - evaluator step - the same optimizer step again
 (the two optimizer steps must be identical within the run); an outer optimization with a nested plan that
-shares the one configuration object.  The workload is run (a) in a fresh interpreter with another
-PYTHONHASHSEED (reference; this process runs with PYTHONHASHSEED=0) and once more in that interpreter, and
-(b) in this process under a set of schedules: after other, different runs (explicit sampler options where
+shares the one configuration object.  The workload is run (a) in a fresh interpreter with PYTHONHASHSEED=0
+(reference) and once more in that interpreter, (b) in a second fresh interpreter with another PYTHONHASHSEED, and
+(c) in this process under a set of schedules: after other, different runs (explicit sampler options where
 the run under test relies on defaults and vice versa, evaluator steps, merely constructed evaluators); with
 new or reused PluginManager / OptimizerContext / Plan + step objects / the same validated EnOptConfig
 object; with complete other runs executed INSIDE the evaluator of the run under test (same context); with
@@ -55,9 +55,9 @@ RULE = ("per case one configuration drawn from: optimizer in {slsqp, l-bfgs-b, n
         "sampler; with explicit options for half of the stats samplers); optional sort/cvar objective filter, "
         "mean/stddev estimators, merged realizations, integer or tuple seeds; and one workload of {optimizer step + gradient probe, "
         "evaluator step first, optimizer-evaluator-same optimizer step again, nested plan sharing the configuration object}.  The first "
-        "40 configurations enumerate methods x sampler methods x workloads systematically.  Each configuration is run "
-        "under every schedule of the tier (fresh interpreter with another PYTHONHASHSEED = reference, and a second run in it; in "
-        "process: plain, after other different runs with new / reused PluginManager / reused OptimizerContext, the same EnOptConfig "
+        "32 configurations enumerate methods x sampler methods x workloads systematically.  Each configuration is run "
+        "under every schedule of the tier (fresh interpreter with PYTHONHASHSEED=0 = reference, and a second run in it; fresh "
+        "interpreter with another PYTHONHASHSEED; in process: plain, after other different runs with new / reused PluginManager / reused OptimizerContext, the same EnOptConfig "
         "object run before, the same Plan and step objects run before, an evaluator step and an unused EnsembleEvaluator on the same "
         "configuration object before, complete other runs inside the evaluator, generator-like state (np.random, scipy.stats "
         "distributions) reseeded and drawn from before the run, at every evaluation start and inside every evaluator call) and once more "
@@ -94,14 +94,19 @@ METHODS = ["slsqp", "l-bfgs-b", "nelder-mead", "differential_evolution"]
 SAMPLERS = ["norm", "uniform", "truncnorm", "sobol", "halton", "lhs"]
 WORKLOADS = ["single", "eval-opt", "opt-eval-opt", "nested"]
 HARNESS_DIR = os.path.dirname(os.path.dirname(os.path.abspath(__file__)))
-N_QUICK, N_THOROUGH = 40, 240
+N_QUICK, N_THOROUGH = 32, 240
+# Observation outside the anchored files (plan/_basic_optimizer.py): BasicOptimizer.run() registers its observers again on
+# every call, so the second run() of one BasicOptimizer object delivers every result twice to set_results_callback (requests
+# and exit code are identical).  Reported to the lead; the stream stays disabled until it is decided (no entry in
+# known_findings.json).  Set to True to see the alarm `basic-optimizer-rerun-differs`.
+BASIC_OPTIMIZER_RERUN = False
 
 
 # ---- generators -----------------------------------------------------------------------------------
 def _rand_spec(rng, k):
-    """k < 40 enumerates: optimizer method = k mod 4, first sampler method = k mod 6 (coprime cycles visit every pair within 12),
+    """k < 32 enumerates: optimizer method = k mod 4, first sampler method = k mod 6 (coprime cycles visit every pair within 12),
     workload = (k div 4) mod 4 shifted so that every method meets every workload, number of samplers 1/2/3 by k mod 5."""
-    systematic = k < 40
+    systematic = k < 32
     method = METHODS[k % 4] if systematic else rng.choice(METHODS + ["slsqp", "l-bfgs-b"])
     workload = WORKLOADS[(k // 4 + k) % 4] if systematic else rng.choice(WORKLOADS + ["single"])
     nvar = rng.randint(2, 4)
@@ -132,7 +137,8 @@ def _rand_spec(rng, k):
         mask[rng.randrange(nvar)] = False
     spec = {
         "method": method, "workload": workload, "nvar": nvar, "nreal": nreal, "npert": rng.randint(2, 4),
-        "seed": rng.choice([rng.randrange(1, 10 ** 6), [rng.randrange(1, 100), rng.randrange(1, 100)]]),
+        # int seed, tuple seed (two different elements), or no seed at all (the documented default seed is part of the configuration)
+        "seed": None if k % 8 == 5 else rng.choice([rng.randrange(1, 10 ** 6), [rng.randrange(1, 50), rng.randrange(50, 100)]]),
         "samplers": samplers, "sampler_idx": idx, "mask": mask,
         "filter": rng.choice([None, None, "sort-objective", "cvar-objective"]) if nreal == 3 else None,
         "estimator": rng.choice([None, "mean", "stddev"]) if nreal >= 2 else None,
@@ -152,27 +158,31 @@ def _rand_spec(rng, k):
 
 
 def _variant(spec, i):
-    """A different configuration, used as 'another optimization executed earlier (or meanwhile) in the same process'."""
+    """A different configuration, used as 'another optimization executed earlier (or meanwhile) in the same process'.
+    i mod 3 = 0: the SAME samplers, options, optimizer and dimensions, another seed and budget (shares everything that a
+                 cache not keyed by the seed could share);
+    i mod 3 = 1: another optimizer and other sampler methods, the SAME seed;
+    i mod 3 = 2: the same sampler methods with explicit options where the run under test relies on the defaults and
+                 vice versa, another seed."""
     v = json.loads(json.dumps(spec))
-    v["seed"] = 7000 + i if i % 2 == 0 else spec["seed"]
-    v["workload"] = "eval-opt" if i % 3 == 2 else "single"
-    if i % 2 == 1:
-        # other optimizer, other sampler methods (incl. a sampler that is only constructed), SAME seed
+    kind = i % 3
+    v["seed"] = spec["seed"] if kind == 1 else 7000 + i          # (kind 1 keeps the seed, also the default one)
+    v["workload"] = "eval-opt" if kind == 2 else "single"
+    if kind == 1:
         v["samplers"] = [{"method": SAMPLERS[(SAMPLERS.index(s["method"]) + 1 + i) % 6], "shared": not s["shared"]}
                          for s in spec["samplers"]]
         v["method"] = METHODS[(METHODS.index(spec["method"]) + 1) % 4]
         v["constraint"] = False
         v["max_functions"] = 12 if v["method"] == "differential_evolution" else 5
-    else:
-        # same samplers and methods, other seed: shares every cached object.  The other run gives explicit options
-        # where the run under test relies on the defaults (and the other way round)
+        return v
+    if kind == 2:
         v["samplers"] = [({"method": x["method"], "shared": x["shared"]} if "options" in x else
-                          {"method": x["method"], "shared": x["shared"], "options": SAMPLER_OPTIONS[x["method"]][(i // 2) % 2]})
+                          {"method": x["method"], "shared": x["shared"], "options": SAMPLER_OPTIONS[x["method"]][(i // 3) % 2]})
                          for x in spec["samplers"]]
-        if v["method"] == "differential_evolution":
-            v["max_functions"] = 12
-        elif spec["workload"] == "nested":
-            v["max_functions"] = 5
+    if v["method"] == "differential_evolution":
+        v["max_functions"] = 12
+    else:
+        v["max_functions"] = 5
     return v
 
 
@@ -185,8 +195,8 @@ def _schedules(tier, rng):
     r = rng.randrange
     s = [
         _sched("inproc-plain"),
-        _sched("after-others-new-objects", "fresh", 2),
-        _sched("after-others-reused-manager", "manager", 2),
+        _sched("after-others-new-objects", "fresh", 3),
+        _sched("after-others-reused-manager", "manager", 3),
         _sched("after-others-reused-context", "context", 3),
         # the SAME validated EnOptConfig object (and context) is run once before: a second run of one configuration
         # object must not continue any state of the first
@@ -196,7 +206,7 @@ def _schedules(tier, rng):
         # an evaluator step and a merely constructed EnsembleEvaluator on the same configuration object come first
         _sched("evaluator-step-and-unused-evaluator-first", "config-eval", 1),
         # complete other optimizations run inside the evaluator of the run under test (same context and manager)
-        _sched("other-runs-inside-evaluator", "context", 1, interleave=[1, 2]),
+        _sched("other-runs-inside-evaluator", "context", 1, interleave=[1, 2, 4]),
         _sched("reseed-before", "fresh", 0, pre=[r(1000), -3, 1000 + r(1000)]),
         _sched("reseed-between-and-inside", "fresh", 0, pre=[r(1000)], between=[r(1000), -2, 1000 + r(1000)],
                inside=[-1, r(1000), -5, 1000 + r(1000)]),
@@ -381,6 +391,16 @@ class _Monitor:
                 parts.append(name + "=" + _table_digest(rs))
         return "|".join(parts)
 
+    def begin_schedule(self):
+        """The table state before anything of this schedule ran (the other runs that come first are not monitored one by
+        one: whatever they write is found at the end of the run under test).  Taken per schedule, so that a verdict does not
+        depend on what the worker process did before."""
+        import ropt.ensemble_evaluator  # noqa: F401 - the modules the runs will use are loaded before the snapshot
+        import ropt.plan  # noqa: F401
+        import ropt.plugins.sampler.scipy  # noqa: F401
+        with self.as_foreign(refresh=False):
+            self.last_tables = _table_cells(None)
+
     def start(self, config=None, tables=True):
         self._wrap_check_random_state()
         self.touches = []
@@ -513,12 +533,14 @@ def _config(spec):
         "optimizer": {"method": spec["method"], "max_functions": spec["max_functions"],
                       "split_evaluations": bool(spec["split"])},
         "realizations": {"weights": [1.0 + 0.5 * r for r in range(nreal)]},
-        "gradient": {"number_of_perturbations": spec["npert"], "seed": tuple(spec["seed"]) if isinstance(spec["seed"], list) else spec["seed"],
+        "gradient": {"number_of_perturbations": spec["npert"],
                      "perturbation_magnitudes": 0.0625, "merge_realizations": bool(spec["merge"])},
         "samplers": [{"method": s["method"], "shared": s["shared"], **({"options": s["options"]} if "options" in s else {})}
                      for s in spec["samplers"]],
         "objectives": {"weights": [1.0, 0.5]},
     }
+    if spec["seed"] is not None:
+        config["gradient"]["seed"] = tuple(spec["seed"]) if isinstance(spec["seed"], list) else spec["seed"]
     if spec["mask"] is not None:
         config["variables"]["mask"] = spec["mask"]
     if spec["sampler_idx"] is not None:
@@ -715,11 +737,41 @@ class _Run:
                 "touches": len(touches), "touch_names": sorted(set(touches))[:6], "pert": self.pert}
 
 
+def _private_sampler_plugin():
+    """A sampler plug-in that another run registers in ITS OWN PluginManager (prioritized, answering to every built-in
+    method name).  Nothing of it may be visible to a run that uses another manager."""
+    import numpy as np
+    from ropt.plugins.sampler.base import Sampler, SamplerPlugin
+
+    class OtherSampler(Sampler):
+        def __init__(self, enopt_config, sampler_index, mask, rng):
+            self._config, self._mask = enopt_config, mask
+
+        def generate_samples(self):
+            c = self._config
+            out = np.full((c.realizations.weights.size, c.gradient.number_of_perturbations, c.variables.initial_values.size), 0.5)
+            out[:, 1::2, :] = -0.25
+            out[:, :, ::2] *= -1.5
+            if self._mask is not None:
+                out[..., ~self._mask] = 0.0
+            return out
+
+    class OtherSamplerPlugin(SamplerPlugin):
+        def create(self, enopt_config, sampler_index, mask, rng):
+            return OtherSampler(enopt_config, sampler_index, mask, rng)
+
+        def is_supported(self, method):
+            return method.lower() in SAMPLERS
+
+    return OtherSamplerPlugin()
+
+
 _QUIET = {"name": "quiet", "reuse": "fresh", "others": 0, "pre": [], "between": [], "inside": [], "interleave": []}
 
 
 def _run_schedule(spec, sched, mon):
     from ropt.ensemble_evaluator import EnsembleEvaluator
+    mon.begin_schedule()
     session = _Session()
     manager = session.manager
     quiet = dict(_QUIET, pre=sched["pre"][:1])
@@ -740,6 +792,8 @@ def _run_schedule(spec, sched, mon):
     for i in range(sched["others"]):
         if reuse == "fresh":
             session = _Session()
+            if i == 0:      # this other run brings its own sampler plug-in, in its own manager
+                session.manager.add_plugin("sampler", "c16other", _private_sampler_plugin(), prioritize=True)
         elif reuse == "manager":
             session = _Session(manager)
         _Run(_variant(spec, i), quiet, mon).execute(session)
@@ -765,21 +819,46 @@ def _execute_eval_only(self, session, config):
 _Run.execute_eval_only = _execute_eval_only
 
 
+def _basic_optimizer_rerun(spec):
+    """One BasicOptimizer object, run() twice: what the evaluator is asked and what set_results_callback delivers."""
+    import warnings
+    import numpy as np
+    from ropt.plan import BasicOptimizer
+    log = []
+
+    def evaluator(variables, ctx):
+        log.append(["C", _digest(variables, ctx.realizations, ctx.perturbations)])
+        return _evaluate(variables, ctx)
+
+    with warnings.catch_warnings():
+        warnings.simplefilter("ignore")
+        bo = BasicOptimizer(_config(spec), evaluator)
+        bo.set_results_callback(lambda results: log.append(["R", _digest(list(results))]))
+        bo.run()
+        n = len(log)
+        first, code1 = log[:n], int(bo.exit_code.value)
+        bo.run()
+        second, code2 = log[n:], int(bo.exit_code.value)
+    return {"first": first, "second": second, "exit": [code1, code2]}
+
+
 def _child(payload):
-    """Entry point of the fresh interpreter: the reference run of the configuration, and the same workload once more."""
+    """Entry point of a fresh interpreter: the workload of the configuration, and (reference only) the same once more."""
     mon = _Monitor.get()
     out = _run_schedule(payload["spec"], dict(_QUIET, name=payload["name"]), mon)
     out["entry_points"] = mon.entry_points
+    if not payload.get("again"):
+        return {"ref": out}
     again = _run_schedule(payload["spec"], dict(_QUIET, name=payload["name"] + "-second-run"), mon)
     return {"ref": out, "again": again}
 
 
-def _fresh_start(spec, name, hashseed):
+def _fresh_start(spec, name, hashseed, again=False):
     code = ("import sys, json; sys.path.insert(0, %r); from common import use_repo_sources; use_repo_sources(); "
             "import props.C16 as m; out = m._child(json.loads(sys.argv[1])); sys.stdout.write('\\n@@C16@@' + json.dumps(out))" % HARNESS_DIR)
     env = dict(os.environ)
     env["PYTHONHASHSEED"] = str(hashseed)
-    return subprocess.Popen([sys.executable, "-c", code, json.dumps({"spec": spec, "name": name})], stdin=subprocess.DEVNULL,
+    return subprocess.Popen([sys.executable, "-c", code, json.dumps({"spec": spec, "name": name, "again": again})], stdin=subprocess.DEVNULL,
                             stdout=subprocess.PIPE, stderr=subprocess.PIPE, text=True, env=env)
 
 
@@ -795,12 +874,25 @@ def _fresh_finish(p):
     return json.loads(out.rsplit("@@C16@@", 1)[1])
 
 
+def _other_seed(seed):
+    """A different seed: the next integer; for a tuple the same elements in the other order (different as a seed, equal under
+    every symmetric reduction such as a sum); for the default seed an arbitrary explicit one."""
+    if seed is None:
+        return 12345
+    if isinstance(seed, list):
+        return [seed[1], seed[0]] if seed[0] != seed[1] else [seed[0] + 1, seed[1]]
+    return seed + 1
+
+
 def run_impl(case):
     spec = case["spec"]
     mon = _Monitor.get()
-    proc = None
-    if case.get("subprocess", True):        # the fresh interpreter runs while this process does the schedules
-        proc = _fresh_start(spec, "fresh-interpreter-other-hashseed", case["hashseed"])
+    procs = []
+    if case.get("subprocess", True):        # both fresh interpreters run while this process does the schedules
+        # (the hash seeds are explicit: `./check` exports PYTHONHASHSEED only after its own interpreter has started, so
+        # this process and the pool workers run under an arbitrary hash seed)
+        procs = [_fresh_start(spec, "fresh-interpreter", 0, again=True),
+                 _fresh_start(spec, "fresh-interpreter-other-hashseed", case["hashseed"])]
     runs = []
     try:
         for k, sched in enumerate(case["schedules"]):
@@ -808,20 +900,24 @@ def run_impl(case):
             out["g0"] = k + 1
             runs.append(out)
     except BaseException:
-        if proc is not None:
-            proc.kill()
+        for p in procs:
+            p.kill()
         raise
-    if proc is not None:
-        both = _fresh_finish(proc)
+    if procs:
+        both = _fresh_finish(procs[0])
         ref = both["ref"]
         runs.insert(0, both["again"])
+        runs.insert(0, _fresh_finish(procs[1])["ref"])
     else:                                   # all in process
         ref = _run_schedule(spec, dict(_QUIET, name="inproc-reference"), mon)
     other = json.loads(json.dumps(spec))
-    other["seed"] = [spec["seed"][0] + 1, spec["seed"][1]] if isinstance(spec["seed"], list) else spec["seed"] + 1
+    other["seed"] = _other_seed(spec["seed"])
     oth = _run_schedule(other, dict(_QUIET, name="other-seed"), mon)
-    return {"ref": ref, "runs": runs, "other_seed": {"pert": oth["pert"], "touches": oth["touches"]},
-            "monitor_entry_points": mon.entry_points}
+    out = {"ref": ref, "runs": runs, "other_seed": {"pert": oth["pert"], "touches": oth["touches"]},
+           "monitor_entry_points": mon.entry_points}
+    if BASIC_OPTIMIZER_RERUN and spec.get("workload", "single") == "single":
+        out["basic_rerun"] = _basic_optimizer_rerun(spec)
+    return out
 
 
 # ---- Gallina printer ------------------------------------------------------------------------------
@@ -841,13 +937,29 @@ def coq_case(case, obs):
     else:
         o = obs["other_seed"]["pert"]
         pert = f"(Some ({cq.z(_zdig(ref['pert']))}, {cq.z(_zdig(o) if o is not None else -1)}))"
-    return f"(Build_case (scr {calls} {int(ref['exit'])}) {cq.nat(ref['touches'])} {cq.lst(runs)} {pert})"
+    twice = []
+    if case["spec"].get("workload") == "opt-eval-opt":
+        for r in [ref] + obs["runs"]:
+            seg = _segments(r)
+            if len(seg) >= 3:
+                twice.append("(" + cq.zs(_seg_digests(seg[0])) + ", " + cq.zs(_seg_digests(seg[2])) + ")")
+    return f"(Build_case (scr {calls} {int(ref['exit'])}) {cq.nat(ref['touches'])} {cq.lst(runs)} {pert} {cq.lst(twice)})"
 
 
 # ---- oracle: the property text on the recorded runs (no model) --------------------------------------
 def _segments(run):
     m = run.get("marks") or []
     return [run["entries"][a:b] for a, b in zip(m, m[1:])]
+
+
+def _seg_digests(seg):
+    """What must repeat when a step is run twice: evaluator requests and all results (not the position labels of R entries)."""
+    out = []
+    for e in seg:
+        if e[0] == "C":
+            out.append(_zdig(e[2]))
+        out.append(_zdig(e[3]))
+    return out
 
 
 def oracle(case, obs):
@@ -879,6 +991,9 @@ def oracle(case, obs):
                 again = [(e[0], e[2] if e[0] == "C" else "", e[3]) for e in seg[2]]
                 if first != again:
                     return {"clause": "same-step-run-twice-differs", "detail": {"schedule": r["name"], "lengths": [len(first), len(again)]}}
+    br = obs.get("basic_rerun")
+    if br is not None and (br["first"] != br["second"] or br["exit"][0] != br["exit"][1]):
+        return {"clause": "basic-optimizer-rerun-differs", "detail": {"lengths": [len(br["first"]), len(br["second"])], "exit": br["exit"]}}
     if ref["pert"] is not None and obs["other_seed"]["pert"] == ref["pert"]:
         return {"clause": "seed-does-not-change-perturbations", "detail": {"seed": case["spec"]["seed"]}}
     if ref["pert"] is None:
@@ -900,7 +1015,8 @@ def features(case, obs):
             "perturbed_calls": min(4, sum(1 for e in obs["ref"]["entries"] if e[0] == "C" and e[1])),
             "calls": min(40, 4 * (sum(1 for e in obs["ref"]["entries"] if e[0] == "C") // 4)),
             "filter": s["filter"], "estimator": s["estimator"], "mask": s["mask"] is not None,
-            "exit": obs["ref"]["exit_name"], "schedules": len(obs["runs"]), "seed_tuple": isinstance(s["seed"], list)}
+            "exit": obs["ref"]["exit_name"], "schedules": len(obs["runs"]),
+            "seed": "default" if s["seed"] is None else ("tuple" if isinstance(s["seed"], list) else "int")}
 
 
 def known_signature(case, obs, violation):
